@@ -14,6 +14,7 @@ mod c15;
 mod api;
 mod c03;
 mod c03m7;
+mod c03srv;
 mod routes;
 mod routes_gen;
 mod c02;
